@@ -396,10 +396,19 @@ func (l *NDNLPLinkService) reassemblePacket(
 	fragIndex uint64,
 	fragCount uint64,
 ) enc.Wire {
-	_, hasSequence := l.partialMessageStore[baseSequence]
+	// Validate the fragmentation fields supplied by the peer
+	if fragCount == 0 || fragIndex >= fragCount || fragCount > defn.MaxNDNPacketSize {
+		core.LogWarn(l, "Received fragment with invalid FragIndex/FragCount - DROP")
+		return nil
+	}
+
+	partial, hasSequence := l.partialMessageStore[baseSequence]
 	if !hasSequence {
 		// Create map entry
 		l.partialMessageStore[baseSequence] = make([][]byte, fragCount)
+	} else if uint64(len(partial)) != fragCount {
+		core.LogWarn(l, "Received fragment whose FragCount contradicts earlier fragments - DROP")
+		return nil
 	}
 
 	// Insert into PartialMessageStore
